@@ -227,7 +227,14 @@ def cmd_rules(ctx):
     alts = [t for g, t in cases(dumped)]
     sl = [t for t in alts if isinstance(t, App) and t.op == "meth:sign_envelope"]
     thawed = App("tag", (App("attr:tag", (loaded,)), App("call:dict", (App("attr:value", (loaded,)),))))
-    ok = bool(sl) and all(strip_sites(t.args[1]) in (loaded, thawed) for t in sl)
+    def one_copy(t):
+        # a copy of a copy of the decoded map is still a copy of it
+        if isinstance(t, App):
+            t = App(t.op, [one_copy(a) for a in t.args], t.node)
+            if t.op == "call:dict" and len(t.args) == 1 and isinstance(t.args[0], App) and t.args[0].op == "call:dict" and len(t.args[0].args) == 1:
+                return t.args[0]
+        return t
+    ok = bool(sl) and all(one_copy(strip_sites(t.args[1])) in (loaded, thawed) for t in sl)
     R.check("C04-D4b CLI load/sign/save", ok, "the envelope saved is the signer's result for the envelope loaded", mod=main.module,
             node=d.node, function=ctx.fq(main), expected="cbor2.dump(signer.sign_envelope(cbor2.load(input), …), output)",
             found=repr(dumped)[:300])
